@@ -425,6 +425,9 @@ MUTANTS = [
     ("c15-reflection-transpose-for-inverse", ["C15"], "HOM1", H,
      "        refdata = (utils.invert(dual_data) @\n                   self.minkowski @\n                   dual_data)",
      "        refdata = (dual_data.swapaxes(-1, -2) @\n                   self.minkowski @\n                   dual_data)"),
+    ("c16-eigenvector-float-buffer", ["C16"], "CX1", G + "projective.py",
+     "        eigvec_coords = utils.zeros(self.proj_data.shape[:-1], like=eigvecs)\n",
+     "        eigvec_coords = utils.zeros(self.proj_data.shape[:-1])\n"),
     # ---- C15
     ("c15-drop-reflection-guard", ["C15"], "R1", H,
      "        if (np.abs(eval_differences) > ERROR_THRESHOLD).any():\n            raise GeometryError(\"Not a reflection matrix\")\n",
